@@ -76,8 +76,16 @@ def run_selftest(prop, base_violations):
                     return kind, jid, "skipped", "patch no longer applies to the current tree"
             else:  # mutant / twin: payload = (relpath, new source)
                 rel, src = payload
-                with open(os.path.join(scratch, rel), "w") as f:
-                    f.write(src)
+                if rel == "*":
+                    import ast as _ast
+
+                    for f in glob.glob(os.path.join(scratch, "dask_expr", "**", "*.py"), recursive=True):
+                        txt = open(f).read()
+                        with open(f, "w") as fh:
+                            fh.write(_ast.unparse(_ast.parse(txt)) + "\n")
+                else:
+                    with open(os.path.join(scratch, rel), "w") as f:
+                        f.write(src)
             got, rc, tail = _violations_in(prop, scratch)
             new = got - {v for v in base_violations}
             if rc == 2:
